@@ -89,3 +89,7 @@ func sameBytes(id string, a, b []byte) {
 		verifAssert(id+".byte", a[i] == b[i])
 	}
 }
+
+func verifBareConn(cfg *Config, isClient bool) *Conn {
+	return &Conn{conn: &verifConn{}, config: cfg, isClient: isClient}
+}
